@@ -306,10 +306,22 @@ def drive_cross(mon: Monitor, rng: random.Random, n: int) -> None:
     for _ in range(n):
         entry = rng.choice(gen.CRS_WINDOWS[1:])
         g, (lon, lat, ext) = gen.window_geobox(rng, entry, npix=(16, 16))
-        poly = geom.box(lon - ext / 2, lat - ext / 2, lon + ext / 2, lat + ext / 2, "EPSG:4326")
+        x0_, y0_, x1_, y1_ = lon - ext / 2, lat - ext / 2, lon + ext / 2, lat + ext / 2
+        kind = rng.choice(["box", "box", "diamond", "triangle", "sliver"])
+        if kind == "box":
+            poly = geom.box(x0_, y0_, x1_, y1_, "EPSG:4326")
+        else:
+            # shapes that are not their own envelope: the region is that of the projected *shape*, not of its projected bounding box
+            ring = {"diamond": [(lon, y0_), (x1_, lat), (lon, y1_), (x0_, lat)], "triangle": [(x0_, y0_), (x1_, y0_ + 0.2 * ext), (x0_ + 0.3 * ext, y1_)],
+                    "sliver": [(x0_, y0_), (x0_ + 0.05 * ext, y0_), (x1_, y1_), (x1_ - 0.05 * ext, y1_)]}[kind]
+            poly = geom.polygon(ring, "EPSG:4326")
         r = abs(g.resolution.x)
         try:
-            GeoBox.from_geopolygon(poly, r * rng.choice([1, 2, 0.5]), crs=entry[0], anchor=rng.choice(["edge", "center", "floating"]), tol=rng.choice([0.01, 0.05]))
+            GeoBox.from_geopolygon(poly, r * rng.choice([1, 2, 0.5]), crs=entry[0], anchor=rng.choice(["edge", "center", "floating"]), tol=rng.choice([0.01, 0.05]), tight=rng.random() < 0.2)
+            if rng.random() < 0.3:
+                # and the other way round: a shape in the projected CRS, grid asked for in lon/lat
+                pn = poly.to_crs(entry[0])
+                GeoBox.from_geopolygon(pn, ext / rng.choice([16, 40]), crs="EPSG:4326", anchor=rng.choice(["edge", "center"]))
             g.to_crs(rng.choice(["EPSG:4326", "EPSG:3857", "EPSG:6933"]), tight=rng.random() < 0.3)
         except Exception:
             pass
@@ -321,7 +333,7 @@ def run(mon: Monitor, tier: str, seed: int, shard: int, nshards: int) -> None:
     try:
         rng = random.Random(seed * 1000 + shard + 8)
         drive(mon, rng, 25000 if tier == "quick" else 250000)
-        drive_cross(mon, rng, 150 if tier == "quick" else 2000)
+        drive_cross(mon, rng, 250 if tier == "quick" else 3000)
         for pt, n in [("GeoBox.from_bbox", 5000), ("GeoBox.from_geopolygon", 1000), ("GeoBox.zoom_to", 500),
                       ("GeoBox.from_bbox|resolution|edge|+-", 100), ("GeoBox.from_bbox|resolution|edge|--", 100), ("GeoBox.from_bbox|resolution|edge|++", 30),
                       ("GeoBox.from_bbox|resolution|centre|+-", 100), ("GeoBox.from_bbox|resolution|fraction|+-", 100), ("GeoBox.from_bbox|resolution|floating|+-", 100),
